@@ -374,6 +374,7 @@ func linkAttrAlphabet() []string {
 		` rel=""`, ` rel="nofollow"`, ` rel="noreferrer"`, ` rel="noopener"`, ` rel="NOFOLLOW"`, ` rel="nofollowx"`, ` rel="xnofollow"`,
 		` rel="external nofollow"`, ` rel="a&#9;b"`, ` rel="xnoopener noreferrerx"`, ` rel="nofollow&nbsp;noreferrer&nbsp;noopener"`,
 		` target="_blank"`, ` target="_self"`, ` target="x"`, ` title="t"`,
+		` target="_BLANK"`, // the keyword is ASCII case-insensitive for a browser
 	}
 }
 
